@@ -1,6 +1,8 @@
 """C20 finding (key System_R.symmetrize:mixed_centres), minimal reproduction; run: /venv/bin/python -m harness.props._c20_repro
 
-d shell on a polar trigonal (C3v) site, axes along the cubic directions"""
+(1) d shell on a polar trigonal (C3v) site, axes along the cubic directions
+(2) p shell on a polar site of a hexagonal cell whose site group contains a mirror oblique to the Cartesian x, y axes
+    (A at (1/2, 0, 1/4), B at (1/2, 1/2, 1/2)): px and py are mixed, s and pz are fine"""
 import io
 import contextlib
 import warnings
@@ -29,7 +31,11 @@ def main():
             s.set_R_mat(key, X)
         s.do_at_end_of_init()
         return s
-    for orb, nw in (("t2g", 3), ("p", 3), ("eg", 2), ("d", 5)):
+    cases = [("cubic C3v", lat, positions, orb, nw) for orb, nw in (("t2g", 3), ("p", 3), ("eg", 2), ("d", 5))]
+    hexlat = np.array([[4.0, 0, 0], [-2.0, 2.0 * np.sqrt(3), 0], [0, 0, 6.0]])
+    hexpos = np.array([[0.5, 0, 0.25], [0.5, 0.5, 0.5]])
+    cases += [("hexagonal  ", hexlat, hexpos, orb, nw) for orb, nw in (("s", 1), ("pz", 1), ("p", 3))]
+    for label, lat, positions, orb, nw in cases:
         s = build(orb, nw)
         with contextlib.redirect_stdout(io.StringIO()):
             symm = s.symmetrize(proj=[f"A:{orb}"], positions=positions, atom_name=names, soc=False, magmom=None, silent=True)
@@ -37,7 +43,7 @@ def main():
             w1 = s.wannier_centers_cart.copy(); H1 = {tuple(R): s.get_R_mat("AA")[i].copy() for i, R in enumerate(s.rvec.iRvec)}
             s.symmetrize2(symm, silent=True)
         w2 = s.wannier_centers_cart
-        print(f"A:{orb:4s} point-group ops {len(s.pointgroup.symmetries):2d}  check_symmetry: " +
+        print(f"{label} A:{orb:4s} point-group ops {len(s.pointgroup.symmetries):2d}  check_symmetry: " +
               ", ".join(f"{q}={max(v for (qq, _), v in err.items() if qq == q):.1e}" for q in sorted({k[0] for k in err})) +
               f"   second symmetrisation moves centres by {np.abs(w2 - w1).max():.1e}")
 
